@@ -139,6 +139,26 @@ def index_design(name, rng):
   body = '\n'.join('    ' + l for l in L)
   return sc.STRUCT_SRC + f'\nclass {name}( Component ):\n  def construct( s ):\n{body}\n'
 
+def rdwr_design(name, rng):
+  """explicit VALUE constraints RD(x)/WR(x) against a block, in all four spellings, incl. the inverting form"""
+  form = rng.randrange(8)
+  L = ['s.i = InPort( 8 )', 's.x = Wire( 8 )', 's.y = Wire( 8 )', 's.e = Wire( 8 )', 's.o1 = OutPort( 8 )', 's.o2 = OutPort( 8 )',
+       '@update', 'def W():', '  s.x @= s.i + 1', '@update', 'def R1():', '  s.o1 @= s.x ^ 1', '@update', 'def R2():', '  s.y @= s.x & 3',
+       '@update', 'def E():', '  s.e @= s.i', '@update', 'def Z():', '  s.o2 @= s.y + s.e']
+  txt, req = [
+    ('RD( s.x ) < U( E )', [('R1', 'E'), ('R2', 'E')]),
+    ('U( E ) < RD( s.x )', [('E', 'R1'), ('E', 'R2')]),
+    ('RD( s.x ) > U( E )', [('E', 'R1'), ('E', 'R2')]),
+    ('U( E ) > RD( s.x )', [('R1', 'E'), ('R2', 'E')]),
+    ('WR( s.x ) < U( E )', [('W', 'E')]),
+    ('U( E ) < WR( s.x )', [('E', 'W')]),
+    ('WR( s.x ) > U( E )', [('E', 'W')]),
+    ('RD( s.x ) < U( W )', [('R1', 'W'), ('R2', 'W')]),          # inverts the implicit writer-before-reader pairs
+  ][form]
+  L.append(f's.add_constraints( {txt} )')
+  body = '\n'.join('    ' + l for l in L)
+  return sc.STRUCT_SRC + f'\nclass {name}( Component ):\n  def construct( s ):\n{body}\n', req, txt
+
 def graph_design(name, n, edges):
   L = [f's.t = [ Wire( 4 ) for _ in range({n}) ]', 's.i = InPort( 4 )']
   for k in range(n):
@@ -147,7 +167,7 @@ def graph_design(name, n, edges):
   body = '\n'.join('    ' + l for l in L)
   return sc.STRUCT_SRC + f'\nclass {name}( Component ):\n  def construct( s ):\n{body}\n'
 
-def check_orders(ctx, name, src, cls, variants, coq_cases, coq_meta, needs=None, fl=False):
+def check_orders(ctx, name, src, cls, variants, coq_cases, coq_meta, needs=None, fl=False, required=None):
   fp = None; orders = []
   for sch, i in variants:
     try:
@@ -171,8 +191,27 @@ def check_orders(ctx, name, src, cls, variants, coq_cases, coq_meta, needs=None,
     orders.append((f'{sch}#{i}', o))
     ctx.count((name, sch, i), True, cls='sched:' + sch)
     # static completeness: every overlapping writer/reader pair must be ordered by pymtl3's constraint set
+    if required:
+      # ordering requirements derived from the TEXT of the generated constraints (RD/WR value constraints), by block name
+      ids_ = {b.__name__: k for k, b in enumerate(fpl.comb)}
+      fpl.expl = sorted(set(fpl.expl) | {(ids_[a], ids_[b]) for (a, b) in required if a in ids_ and b in ids_})
+      if fp is fpl or fp is None: fp = fpl
     if (sch, i) == variants[0]:
       E = set(fpl.edges); X = set(fpl.expl)
+      if required:
+        reach0 = {a: set() for a in range(len(fpl.comb))}
+        for (a, b) in E: reach0[a].add(b)
+        ch = True
+        while ch:
+          ch = False
+          for a in reach0:
+            nw = (set().union(*[reach0[x] for x in reach0[a]]) - reach0[a]) if reach0[a] else set()
+            if nw: reach0[a] |= nw; ch = True
+        for (a, b) in required:
+          if a in ids_ and b in ids_ and ids_[b] not in reach0[ids_[a]]:
+            ctx.violation(f'C02:value-constraint-dropped:{name}:{a}:{b}',
+                          f'design {name}: the declared RD/WR value constraint requires block {a} before block {b}, but the constraint set the schedulers use does not imply it',
+                          {'design_source': src, 'before': a, 'after': b, 'edges': [(fpl.comb[x].__name__, fpl.comb[y].__name__) for x, y in fpl.edges]})
       for (a, b) in X:
         if (a, b) not in E:
           ctx.violation(f'C02:explicit-dropped:{name}:{fpl.comb[a].__name__}:{fpl.comb[b].__name__}',
@@ -285,6 +324,14 @@ def run(ctx):
       ctx.hist['family:signal-index'] = ctx.hist.get('family:signal-index', 0) + 1
     except Exception as e:
       ctx.violation(f'C02:index-design-crash:{type(e).__name__}', f'index design failed: {type(e).__name__}: {str(e)[:200]}', {'design_source': src, 'traceback': traceback.format_exc()[-1500:]})
+  for j in range(16 if quick else 64):
+    src, req, txt = rdwr_design(f'VC{j}', random.Random(j))
+    try:
+      cls, _ = sc.load_source(ctx, src, f'VC{j}')
+      check_orders(ctx, f'VC{j}', src, cls, variants, coq_cases, coq_meta, required=req)
+      ctx.hist['family:value-constraint:' + txt.split('(')[0].strip() + ('<' if '<' in txt else '>')] = ctx.hist.get('family:value-constraint:' + txt.split('(')[0].strip() + ('<' if '<' in txt else '>'), 0) + 1
+    except Exception as e:
+      ctx.violation(f'C02:rdwr-design-crash:{type(e).__name__}', f'value-constraint design ({txt}) failed: {type(e).__name__}: {str(e)[:200]}', {'design_source': src, 'traceback': traceback.format_exc()[-1500:]})
   # pure constraint graphs
   for j in range(12 if quick else 60):
     n = rng.choice([5, 8, 13, 30, 60] if quick else [5, 8, 13, 30, 60, 120])
